@@ -414,14 +414,29 @@ type ReplaySpec struct {
 	Params   []*InTree         `json:"params"`
 	Imports  map[string]string `json:"imports"`
 	Bad      []string          `json:"unsupported,omitempty"`
+	Then     string            `json:"then_method,omitempty"` // method harness: method called on the first result afterwards
 }
 
 // snapshotReplay is called when an obligation fails on a path.
 func (u *Unit) snapshotReplay(st *State, o *Obligation) {
-	if u.paramVals == nil || u.Target == nil || u.Target.Pkg == nil {
+	if u.paramVals == nil || u.Target == nil {
 		return
 	}
-	rc := &replayCtx{pkg: u.Target.Pkg.Pkg, imports: map[string]string{}}
+	tpkg := u.Target.Pkg
+	if tpkg == nil && u.Target.Signature.Recv() != nil {
+		// compiler-generated wrapper: replay in the package of the receiver type
+		rt := u.Target.Signature.Recv().Type()
+		if pt, ok := rt.(*types.Pointer); ok {
+			rt = pt.Elem()
+		}
+		if n, ok := rt.(*types.Named); ok && n.Obj().Pkg() != nil {
+			tpkg = u.P.Prog.Package(n.Obj().Pkg())
+		}
+	}
+	if tpkg == nil {
+		return
+	}
+	rc := &replayCtx{pkg: tpkg.Pkg, imports: map[string]string{}}
 	rs := &ReplaySpec{Pkg: rc.pkg.Path(), PkgName: rc.pkg.Name(), Func: u.Target.Name(), Lemma: u.isSpecFile(u.Target)}
 	rs.Dir = strings.TrimPrefix(strings.TrimPrefix(rc.pkg.Path(), ModPath), "/")
 	rs.Recv = u.Target.Signature.Recv() != nil
@@ -431,6 +446,7 @@ func (u *Unit) snapshotReplay(st *State, o *Obligation) {
 	}
 	rs.Imports = rc.imports
 	rs.Bad = rc.bad
+	rs.Then = u.curMethod
 	o.Replay = rs
 }
 
@@ -532,6 +548,12 @@ func buildReplay(p *Program, units []*UnitResult, o *Obligation, rf *replayFile,
 			fmt.Fprintf(&sb, "\t%s\n", call)
 		}
 		fmt.Fprintf(&sb, "\tif !%s(%s) {\n\t\tt.Fatalf(\"GVC-REPLAY-CONFIRMED: postcondition violated: %%s\", %q)\n\t}\n", o.ClauseFunc, strings.Join(append(names, rnames...), ", "), o.Text)
+	case rs.Then != "" && len(rnames) > 0:
+		lhs := append([]string{"r0"}, make([]string, len(rnames)-1)...)
+		for i := 1; i < len(lhs); i++ {
+			lhs[i] = "_"
+		}
+		fmt.Fprintf(&sb, "\t%s := %s\n\tr0.%s()\n", strings.Join(lhs, ", "), call, rs.Then)
 	default:
 		if len(rnames) > 0 {
 			var blanks []string
